@@ -271,7 +271,7 @@ PROPS = {
         "rule": MATCH_RULE,
     },
     "C03": {
-        "modules": ["Sheens.Props.C03"],
+        "modules": ["Sheens.Props.C03", "Sheens.Props.C03Linear"],
         "theorems": [],
         "facts": ["match_copies_first", "copyBindingss_copies", "matcher_branches_copy", "matcher_writes_only_locals_and_bindings", "match_no_hidden_state"],
         "runs": {
@@ -310,9 +310,9 @@ PROPS = {
         "rule": ENGINE_RULE + "  Split runs: the whole batch in one Walk versus every generated split into consecutive batches.",
     },
     "C06": {
-        "modules": ["Sheens.Props.C06"],
+        "modules": ["Sheens.Props.C06", "Sheens.Props.C06Own"],
         "theorems": [],
-        "facts": ["engine_writes_only_locals", "engine_mutators_on_fresh_maps", "step_returns_copies", "match_copies_first", "core_no_hidden_state", "match_no_hidden_state"],
+        "facts": ["engine_writes_only_locals", "engine_mutators_on_fresh_maps", "step_returns_copies", "step_copy_sites", "match_copies_first", "copyBindingss_copies", "bindings_deep_copied", "core_no_hidden_state", "match_no_hidden_state"],
         "runs": {
             "quick": [("walk", ["-profile", "failing", "-n", "7000"]), ("step", ["-profile", "failing", "-n", "6000"])],
             "thorough": [("walk", ["-profile", "failing", "-n", "40000"]), ("step", ["-profile", "failing", "-n", "40000"]),
@@ -519,7 +519,7 @@ PROPS = {
         },
         "analyze": analyze_generic,
         "oracles": ["total", "rule", "errSame"],
-        "probes": ["stopsWithError", "prompt", "noGoroutineLeak", "timeoutRoutedAsActionError"],
+        "probes": ["stopsWithError", "prompt", "noGoroutineLeak", "nothingLeftUnderLiveContext", "timeoutRoutedAsActionError"],
         "rule": ("scripts whose time is spent in interpreted code (empty loop, unbounded recursion, array churn, property churn, nested "
                  "arithmetic loops) under deadlines from already expired to 200 ms, with cancellation at a random moment, 1-16 concurrent "
                  "executions; every execution must end with an error within the deadline plus a generous slack (1.5 s, to stay clear of "
